@@ -24,8 +24,19 @@ void P1_COPY(P1* d, P1* s) { d->f0 = s->f0; d->f1 = s->f1; }
 void P2_COPY(P2* d, P2* s) { d->f0 = s->f0; }
 void P1_DTOR(P1* p) { } void P2_DTOR(P2* p) { }
 /* which set is assigned from which (swap of start and final states) */
-SS* SS_ASSIGN(SS* d, SS* s) { if (g_ss_assigns == 0) { g_ssa_dst1 = d; g_ssa_src1 = s; } else { g_ssa_dst2 = d; g_ssa_src2 = s; } g_ss_assigns++; return d; }
-SMAP* SMAP_ASSIGN(SMAP* d, SMAP* s) { return d; }
+SS* SS_ASSIGN(SS* d, SS* s) { if (g_ss_assigns == 0) { g_ssa_dst1 = d; g_ssa_src1 = s; } else { g_ssa_dst2 = d; g_ssa_src2 = s; } g_ss_assigns++;
+  if (d == (SS*)&g_res->f1) g_res_start_wf = (s == (SS*)&g_src->f0) ? fin_wf : ((s == (SS*)&g_src->f1) ? st_wf : nondet_bool()); return d; }
+SMAP* SMAP_ASSIGN(SMAP* d, SMAP* s) { if (d == (SMAP*)&g_res->f2) g_res_entry_wf = (s == (SMAP*)&g_src->f2) ? st_wf : nondet_bool(); return d; }
+/* the final states of the operand (witness traversal) and the entries added to the result's start-symbol map */
+HNF FS_BEGIN(USET* s) { __CPROVER_assert(s == (void*)&g_src->f0, "traversal of the operand's final states"); seen_f = 0; return fin_wf ? TOK(HNF) : MAYBE(HNF); }
+HNF FS_END(USET* s) { return (HNF)0; }
+uint64_t* FSI_DEREF(FSI* it) { __CPROVER_assert(it->f0.f0 != 0, "no dereference of an end iterator"); _Bool w = fin_wf && nondet_bool() && !seen_f; if (w) seen_f = 1;
+  cell_f = nondet_u64(); if (w) cell_f = wf; else __CPROVER_assume(cell_f != wf); return &cell_f; }
+FSI* FSI_INC(FSI* it) { it->f0.f0 = MAYBE(HNF); __CPROVER_assume(it->f0.f0 != 0 || !fin_wf || seen_f); return it; }
+void SYMSET_CTOR(USET* s) { } void SYMSET_DTOR(USET* s) { } void PAIR_SS_DTOR(PAIR_SS* p) { }
+void MKPAIR_SS(PAIR_SS* ret, uint64_t* k, USET* set) { ret->f0 = *k; }
+SMAP_INSRET SMAP_INSERT(SMAP* m, PAIR_SS* kv) { __CPROVER_assert(m == (void*)&g_res->f2, "entries are added to the result's start-symbol map");
+  if (((PAIR_SS*)kv)->f0 == wf) g_res_entry_wf = 1; SMAP_INSRET r; r.f1 = nondet_bool(); return r; }
 void FA_CTOR(FA* a, void* al) { } void FA_DTOR(FA* a) { }
 /* call-site contract: only the reversed current edge may be added, to the result */
 void ADDT(FA* a, uint64_t* from, uint64_t* sym, uint64_t* to) {
@@ -33,4 +44,4 @@ void ADDT(FA* a, uint64_t* from, uint64_t* sym, uint64_t* to) {
   __CPROVER_assert(*from == g_R && *sym == g_S && *to == g_L, "C10 Reverse: the added edge is the reversal (R -S-> L) of the edge under the cursors");
   if (*from == wR && *sym == wS && *to == wL) g_added_w = 1; g_add_calls++; }
 void h_REV(void) { FA* self = malloc(sizeof *self); FA* res = malloc(sizeof *res); MAPF* m = malloc(sizeof *m); __CPROVER_assume(self && res && m);
-  self->f3.f0.f0 = m; g_res = res; g_src = self; g_seen1 = 0; g_added_w = 0; g_ss_assigns = 0; REV(res, self, 0); CANARY("h_REV"); }
+  self->f3.f0.f0 = m; g_res = res; g_src = self; g_seen1 = 0; g_added_w = 0; g_ss_assigns = 0; g_res_start_wf = 0; g_res_entry_wf = 0; REV(res, self, 0); CANARY("h_REV"); }
